@@ -83,6 +83,9 @@ def r1(ctx: Ctx) -> None:
                             tgt = key(strip_ver(e.base)) + ("" if e.attr else "[" + key(strip_ver(e.index)) + "]")
                             per.setdefault(tgt, []).append(poly_key(to_poly(d)) if d is not None else "?")
                         cancel = len(hs) == 4 and len(per) == 2 and all(len(v) == 2 and "?" not in v and _negk(v[0]) == v[1] for v in per.values())
+                        if not cancel and any("?" in v for v in per.values()):
+                            ctx.unrec(f, l.node, "a fill of an agent with itself leaves its holdings as they are", "under `buyer is seller` a balance is written from a value computed before the other leg's write: whether the legs cancel is not decided in this form", str(per)[:160])
+                            continue
                         ctx.check(cancel and bp.exit[0] in ("fall", "continue"), f, l.node, "a fill of an agent with itself leaves its holdings as they are", "no update, or both legs on the one agent (the deltas cancel)", str(per)[:160])
                         continue
                     ctx.check(none and bp.exit[0] in ("fall", "continue"), f, l.node, "a fill of an agent with itself leaves its holdings as they are", "no update (the two deltas cancel)", bp.describe()[:120])
@@ -120,9 +123,17 @@ def r1(ctx: Ctx) -> None:
                     return key(b)
 
                 seen: Dict[str, str] = {}
+                refused = False
                 for e in cash + shares:
                     d = _delta(e)
                     kind = "cash" if e in cash else "shares"
+                    if d is None and self_conds:
+                        # the routine tells the self-trade apart by a test on the two parties and reads / writes in an order that is
+                        # only right under that test: the rule compares a store with the value the slot holds at that moment and
+                        # does not carry "the parties differ" into that comparison (corrected version of seed C05t)
+                        ctx.unrec(f, e.node, f"{kind} update adds to the holding's current value", "the update is made under a test whether buyer and seller are one agent, from a balance read earlier: the case split is not modelled", f"{short(e.target)} := {short(e.value)}"[:160])
+                        refused = True
+                        continue
                     if d is None:
                         ctx.violated(f, e.node, f"{kind} update adds to the holding's current value", "target = <current target> +/- delta",
                                      f"{short(e.target)} := {short(e.value)} (current value is {short(e.cur)})")
@@ -131,6 +142,8 @@ def r1(ctx: Ctx) -> None:
                     if kind == "shares":
                         ctx.check(strip_ver(e.index) == ("attr", log, "market_id"), f, e.node, "share position of the fill's own market", "asset_volumes[log.market_id]", short(e.index))
                 want = {"buyer.cash": _negk(amount), "seller.cash": amount, "buyer.shares": vol, "seller.shares": _negk(vol)}
+                if refused:
+                    continue  # a delta could not be read off (refused above): the comparison of all four is not made
                 ctx.check(seen == want, f, l.node, "signed deltas of one fill", str(want), str(seen))
     ctx.require(n >= 1, f"{UPD}: no per-log update path")
 
